@@ -123,3 +123,26 @@ Proof.
   - eapply Forall_impl; [|exact Hf]. intros x [H0 H1]. split; apply leR_cmp; assumption.
   - eapply Forall_impl; [|exact Hf]. intros x [(_ & Hx & _) _]. exact Hx.
 Qed.
+
+(* the same for the table of a built distribution (any carrier: decomposition of build) *)
+Lemma build_inv_generic : forall (T : Type) (N : NumOps T) m bg d, build N m bg = Ok d ->
+  exists pdf, pdf_of N bg (d_data d) = Ok pdf /\ survival N pdf = Ok (d_sf d, d_min d, d_max d).
+Proof.
+  intros T N m bg d H. unfold build in H.
+  destruct (negb (forallb (fun row : list (cell T) => (length row =? length bg)%nat) m)); [discriminate|].
+  apply rbind_ok in H. destruct H as ([offset scale] & Ha & H).
+  apply rbind_ok in H. destruct H as (pdf & Hp & H).
+  apply rbind_ok in H. destruct H as ([[sf mn] mx] & Hs & H). inversion H; subst d; clear H. cbn.
+  exists pdf. split; assumption.
+Qed.
+
+Theorem table_F64 : forall m bg d,
+  f64_build m bg = Ok d ->
+  (forall pdf, pdf_of F64Ops bg (d_data d) = Ok pdf ->
+     Forall (fun x => F64.is_finite x = true /\ F64.le F64.zero x = true) pdf) ->
+  noninc f64_leP (d_sf d) /\ Forall (in01 F64Ops f64_leP) (d_sf d) /\
+  Forall (fun x => F64.is_finite x = true) (d_sf d).
+Proof.
+  intros m bg d H Hpdf. destruct (build_inv_generic _ F64Ops m bg d H) as (pdf & Hp & Hs).
+  destruct (sf_monotone_range_F64 pdf _ _ _ (Hpdf pdf Hp) Hs) as (_ & Hn & Hf & Hfin). auto.
+Qed.
